@@ -8,6 +8,7 @@ use crate::runner::{Ctx, PropDyn};
 pub mod c01;
 pub mod c03;
 pub mod c05;
+pub mod c06;
 pub mod c07;
 pub mod c08;
 pub mod c09;
@@ -46,6 +47,12 @@ pub fn all() -> Vec<Check> {
             props: c05::props,
             describe: c05::describe,
             sweeps: Some(c05::sweeps),
+        },
+        Check {
+            id: "C06",
+            props: c06::props,
+            describe: c06::describe,
+            sweeps: None,
         },
         Check {
             id: "C07",
